@@ -113,3 +113,11 @@ META["C08"] = dict(
     note="Trusts the running-sum model (10 lines) and the recording transport/network doubles.",
     technique="runtime monitoring: reference-model oracle on the return value of every block report + recorded transport/network calls for re-validation outcomes",
 )
+
+META["C11"] = dict(
+    text=("Held on K PRNG interleavings of pause/resume actions by both parties over two real managers: a 2-bit reference per side, transport and announcement checks after each "
+          "action, plus the exhaustive single-step table for the four pause events over all statuses/flags/roles."),
+    design_ref="DESIGN.md §2 C11",
+    note="Transport carriage between the managers is emulated by the harness bridge (mgr_test.go) following gsReqRecdHook/gsIncomingResponseHook/gsRequestUpdatedHook; real graphsync in C01.",
+    technique="runtime monitoring: reference-model (2 bits per side) oracle over both managers' states + recorded transport/network calls",
+)
